@@ -56,6 +56,9 @@ extern bool cmi_process_remove_awaitable(struct cmb_process *pp,
 
 extern void cmi_process_cancel_awaiteds(struct cmb_process *pp);
 
+/* Tell a process, by an interrupt at the current time, that it has been preempted */
+extern void cmi_process_preempt_notice(struct cmb_process *pp);
+
 /*
  * cmi_process_holdable - Things that can be held by a process.
  */
